@@ -323,7 +323,8 @@ pub fn binder_scope_programs() -> Vec<String> {
         "n := if v: int = 5 { v } else { v }; w := if q: float = 5 { 1 } else { v }",
     ];
     // uses of v at type int afterwards
-    let uses = ["v + 1", "[v][0] * 2", "-v", "v"];
+    // (and, last, a use at the type of the outer v: the construct must not have changed what v means)
+    let uses = ["v + 1", "[v][0] * 2", "-v", "v", "v + \"!\""];
     let mut out = vec![];
     let src = "src := (k: mut int) -> int|string { if *k < 2 { return *k; } return \"end\"; }; ";
     for b in binders {
